@@ -149,9 +149,14 @@ CHECKS = {
          "the host named in the id (top-level document from that host or embedded in one); plus fetch_url_served, cache soundness "
          "preservation, fetch_unknown_no_id. Tie: client.FetchUnknown driven against multi-host loopback TLS worlds (lying ids, stubs, "
          "open and cross-host redirects, random orders, cache sizes 1/2/128); results and request sequences equal Client.fetch_unknown "
-         "and an independent oracle checks the host stamp of every accepted object against its id.",
-    note="net/url, encoding/json, TLS are library oracles (universally quantified in the theorems). The call discipline of the pub "
-         "constructors (which source they pass) is covered by the listings check C09 when it lands.",
+         "and an independent oracle checks the host stamp of every accepted object against its id. TYPED INPUT: "
+         "fetch_user_input_provenance (OpenFacts): what ':open @name' / ':open url' accepts with an id was served by that id's host, "
+         "also when a webfinger lookup comes first and leaves its own entries (under tagged keys) in the shared cache - mixed_sound "
+         "is the invariant of such a cache, get_mixed shows that a document fetch never reads a lookup's entries; exercised through "
+         "pub.FetchUserInput in the C04/C03 worlds (targets that claim an id on another host included).",
+    note="net/url, encoding/json, TLS are library oracles (universally quantified in the theorems). The typed-input theorems assume "
+         "that no real URL looks like a tagged cache key (three hygiene hypotheses on the oracles). The call discipline of the pub "
+         "constructors (which source they pass) is what the listings check C09 exercises.",
     technique="Coq proof (case analysis of the provenance rule over a cache-soundness invariant) + differential correspondence against a multi-host TLS simulator",
     design="5/C02"),
  "C03": dict(
